@@ -1,0 +1,136 @@
+//go:build verif
+
+// Contracts for the verification engine in /verif (govc). This file contains comments only:
+// it adds no code with or without the build tag "verif". Syntax: /verif/DESIGN.md section 3.2.
+// Store ghost state stored(store,key) etc.: /verif/theory/store.spec.
+
+package core
+
+// ---- bundle upload: metadata writes (C06: descriptor last, create-if-absent; C04) ------------
+
+//@ func uploadBundleEntriesFileList
+//@   ghost ms = Bundle.MetaStore(bundle)
+//@   ghost pth = model.GetArchivePathToBundleFileList(bundle.RepoID, bundle.BundleID, bundle.BundleDescriptor.BundleEntriesFileCount)
+//@   call PutCRC#1 assert [key] $key == pth
+//@   call PutCRC#1 assert [flag] $noOverwrite == storage.NoOverWrite
+//@   call PutCRC#1 assert [store] $self == ms
+//@   call PutCRC#1 bind e1 = $ret0
+//@   call Put#1 assert [key] $key == pth
+//@   call Put#1 assert [flag] $noOverwrite == storage.NoOverWrite
+//@   call Put#1 assert [store] $self == ms
+//@   call Put#1 bind e2 = $ret0
+//@   ensures [propagate] (e1_set && e1 != nil) || (e2_set && e2 != nil) ==> ret0 != nil
+//@   ensures [written] ret0 == nil ==> (e1_set && e1 == nil) || (e2_set && e2 == nil)
+//@   ensures [count] ret0 == nil ==> bundle.BundleDescriptor.BundleEntriesFileCount == old(bundle.BundleDescriptor.BundleEntriesFileCount) + 1
+//@   ensures [count-fail] ret0 != nil ==> bundle.BundleDescriptor.BundleEntriesFileCount == old(bundle.BundleDescriptor.BundleEntriesFileCount)
+//@   ensures [created] ret0 == nil ==> stored(ms, pth)
+//@   requires bundle != nil && Bundle.MetaStore(bundle) != nil
+//@   ensures [frame] forall k string :: k != pth ==> (stored(ms, k) <==> old(stored(ms, k)))
+//@   ensures [ids] bundle.RepoID == old(bundle.RepoID) && bundle.BundleID == old(bundle.BundleID)
+
+//@ func uploadBundleDescriptor
+//@   requires bundle != nil && Bundle.MetaStore(bundle) != nil
+//@   ghost ms = Bundle.MetaStore(bundle)
+//@   ghost pth = model.GetArchivePathToBundle(bundle.RepoID, bundle.BundleID)
+//@   call PutCRC#1 assert [key] $key == pth
+//@   call PutCRC#1 assert [flag] $noOverwrite == storage.NoOverWrite
+//@   call PutCRC#1 assert [store] $self == ms
+//@   call PutCRC#1 bind e1 = $ret0
+//@   call Put#1 assert [key] $key == pth
+//@   call Put#1 assert [flag] $noOverwrite == storage.NoOverWrite
+//@   call Put#1 assert [store] $self == ms
+//@   call Put#1 bind e2 = $ret0
+//@   ensures [propagate] (e1_set && e1 != nil) || (e2_set && e2 != nil) ==> ret0 != nil
+//@   ensures [written] ret0 == nil ==> (e1_set && e1 == nil) || (e2_set && e2 == nil)
+//@   ensures [created] ret0 == nil ==> stored(ms, pth) && !old(stored(ms, pth))
+//@   ensures [frame] forall k string :: k != pth ==> (stored(ms, k) <==> old(stored(ms, k)))
+
+// the descriptor is the last metadata write of an upload: every file list it counts exists
+//@ pred listsStored(ms, b, n) = forall i int :: 0 <= i && i < n ==> stored(ms, model.GetArchivePathToBundleFileList(b.RepoID, b.BundleID, i))
+
+//@ func (*Bundle).UploadBundleEntries
+//@   requires b != nil && Bundle.MetaStore(b) != nil
+//@   requires b.BundleDescriptor.BundleEntriesFileCount == 0
+//@   ghost ms = Bundle.MetaStore(b)
+//@   loop 1 invariant [idx] 0 <= i && (i == 0 || (i-1)*1000 < len(fileList))
+//@   loop 1 invariant [count] b.BundleDescriptor.BundleEntriesFileCount == i
+//@   loop 1 invariant [lists] listsStored(ms, b, i)
+//@   loop 1 invariant [ids] b.RepoID == old(b.RepoID) && b.BundleID == old(b.BundleID) && Bundle.MetaStore(b) == ms
+//@   call uploadBundleEntriesFileList#1 assert [batch] len($fileList) == 1000
+//@   call uploadBundleEntriesFileList#2 assert [last] len($fileList) == len(fileList) - i*1000 && len($fileList) <= 1000 && len($fileList) > 0
+//@   call uploadBundleDescriptor#1 assert [lists-first] i*1000 >= len(fileList) && listsStored(ms, b, b.BundleDescriptor.BundleEntriesFileCount)
+//@   call uploadBundleEntriesFileList#1 bind e1 = $ret0
+//@   call uploadBundleEntriesFileList#2 bind e2 = $ret0
+//@   call uploadBundleDescriptor#1 bind e3 = $ret0
+//@   ensures [propagate] (e3_set && e3 != nil) ==> err != nil
+//@   ensures [descriptor-last] err == nil ==> e3_set && e3 == nil
+
+// ---- bundle upload driver (C04 batching, C06 descriptor last) ------------------------------------
+
+//@ func uploadBundleFile
+//@   send chans.error#1 assert [non-nil] $val.error != nil
+//@   send chans.filePacked#1 assert [entry] $val.name == file && $val.idx == fileIdx
+
+//@ func uploadBundleFiles
+//@   send chans.error#1 assert [non-nil] $val.error != nil
+//@   modifies store-additive, sync
+//@   note frame assumed: the file upload goroutines only write blobs (cafs Put, create/rewrite, never delete) and bundle metrics
+
+//@ func uploadBundle
+//@   modifies store, sync, field:Bundle.BundleID, field:model.BundleDescriptor.ID, field:model.BundleDescriptor.BundleEntriesFileCount
+//@   note frame assumed: getKeys, options and cafs.New only read; everything else uploadBundle writes is stores and the listed bundle fields
+//@   call getKeys#1 pure
+//@   recv errorC assume $val.error != nil
+//@   requires bundle != nil && Bundle.MetaStore(bundle) != nil
+//@   requires bundleEntriesPerFile > 0
+//@   requires bundle.BundleDescriptor.BundleEntriesFileCount == 0
+//@   ghost ms = Bundle.MetaStore(bundle)
+//@   loop 2 invariant [batch] numFilePackedRes == bundleEntriesPerFile*numFileListUploads + len(fileList) && 0 <= len(fileList) && len(fileList) < bundleEntriesPerFile && numFileListUploads >= 0
+//@   loop 2 invariant [count] bundle.BundleDescriptor.BundleEntriesFileCount == numFileListUploads
+//@   loop 2 invariant [lists] listsStored(ms, bundle, numFileListUploads)
+//@   loop 2 invariant [ids] Bundle.MetaStore(bundle) == ms && cap(fileList) >= 0
+//@   call uploadBundleEntriesFileList#1 assert [full-list] len($fileList) == bundleEntriesPerFile
+//@   call uploadBundleEntriesFileList#2 assert [last-list] 0 < len($fileList) && len($fileList) < bundleEntriesPerFile
+//@   call uploadBundleDescriptor#1 assert [lists-first] listsStored(ms, bundle, bundle.BundleDescriptor.BundleEntriesFileCount)
+//@   call uploadBundleDescriptor#1 assert [all-listed] numFilePackedRes == bundleEntriesPerFile*(numFileListUploads - ite(len(fileList) != 0, 1, 0)) + len(fileList)
+//@   call uploadBundleEntriesFileList#1 bind e1 = $ret0
+//@   call uploadBundleEntriesFileList#2 bind e2 = $ret0
+//@   call uploadBundleDescriptor#1 bind e3 = $ret0
+//@   ensures [descriptor-last] ret0 == nil ==> e3_set && e3 == nil
+//@   ensures [propagate] (e3_set && e3 != nil) ==> ret0 != nil
+
+// ---- listing / resolving bundles (C06 readers) ----------------------------------------------------
+
+//@ func downloadBundleDescriptor
+//@   requires store != nil
+//@   ensures [visible] ret1 == nil && !settings.withMinimalBundle ==> stored(store, model.GetArchivePathToBundle(repo, ret0.ID))
+//@   call Get#1 bind ge = $ret1
+//@   ensures [propagate] ge_set && ge != nil ==> ret1 != nil
+
+//@ func getBundleAsync
+//@   requires store != nil
+//@   call Is#1 assert [sentinel] $target == iface(storagestatus.ErrNotExists)
+//@   call Is#1 assert [err] $err == err
+
+//@ func RepoExists
+//@   requires stores != nil && getMetaStore(stores) != nil
+//@   call Has#1 assert [key] $key == model.GetArchivePathToRepoDescriptor(repo)
+//@   ensures [exists] ret0 == nil ==> stored(getMetaStore(stores), model.GetArchivePathToRepoDescriptor(repo))
+
+// ---- store accessors: all defined in terms of getMetaStore / getVMetaStore / getBlobStore ---------
+//@ func (*Bundle).MetaStore
+//@   ensures result == getMetaStore(b.contextStores)
+//@ func (*Bundle).BlobStore
+//@   ensures result == getBlobStore(b.contextStores)
+//@ func (*Bundle).VMetaStore
+//@   ensures result == getVMetaStore(b.contextStores)
+//@ func GetBundleStore
+//@   ensures result == getMetaStore(stores)
+//@ func GetRepoStore
+//@   ensures result == getMetaStore(stores)
+//@ func GetDiamondStore
+//@   ensures result == getVMetaStore(stores)
+//@ func GetSplitStore
+//@   ensures result == getVMetaStore(stores)
+//@ func GetLabelStore
+//@   ensures result == getLabelStore(stores)
